@@ -258,9 +258,16 @@ def case_strategy():
     return st.builds(build, G.stream(max_msgs=4, p_mut=0.55), st.sampled_from(ADJ_CHOICES), st.booleans())
 
 
+JUNK_BEFORE = ["\r", "\n", "\r\r\n", "\r\n\r", "\n\r\n", "\r\n\n", "\r\n\r\n\r", " ", "\t", "\r\n ", "\x00", "\r\n\r\n"]
+
+
 def table_cases():
     for bi, base in enumerate(G.base_sentences()):
         yield {"stream": G.render(base) + G.FOLLOWER, "adj": {}}
+        # bytes in front of a request line: of the first message and of one pipelined behind a complete message
+        for junk in JUNK_BEFORE:
+            yield {"stream": junk + G.render(base) + G.FOLLOWER, "adj": {}}
+            yield {"stream": G.render(base) + junk + G.FOLLOWER, "adj": {}}
         for m in G.mutation_sites(base):
             yield {"stream": G.render(G.apply_mutation(base, m)) + G.FOLLOWER, "adj": {}}
 
